@@ -31,6 +31,8 @@ type Harness struct {
 	// engine knobs
 	PanicsAreViolations bool // Go panics reached in repo code are property violations (C08/C17)
 	AllocCut            int
+	AllocLimit          int64
+	StepLimitIsViolation bool
 	MaxSteps            int
 	NoIfConvert         bool
 	BudgetS             [2]int // wall budget per tier (0 = default)
@@ -49,6 +51,8 @@ type Check struct {
 	// MsgPrefixes, when set, restricts the check to harness assertions whose
 	// message starts with one of them (a harness shared by two properties).
 	MsgPrefixes []string
+	// OnlyKinds, when set, restricts the check to obligations of these kinds.
+	OnlyKinds []string
 }
 
 // NativeCase mirrors zzvrt.Case.
@@ -77,6 +81,8 @@ type ReplayFile struct {
 	Params   map[string]int    `json:"params"`
 	Native   *NativeResult     `json:"native_result,omitempty"`
 	Choices  map[string]int64  `json:"choices,omitempty"`
+	AllocLimit int64           `json:"alloc_limit,omitempty"`
+	AllocCut   int             `json:"alloc_cut,omitempty"`
 	Events   []string          `json:"write_events,omitempty"`
 	Howto    string            `json:"howto"`
 }
@@ -327,6 +333,8 @@ func CmdCheck(args []string) int {
 		}
 		cfg.PanicsAreViolations = h.PanicsAreViolations
 		cfg.AllocCut = h.AllocCut
+		cfg.AllocLimit = h.AllocLimit
+		cfg.StepLimitModels = h.StepLimitIsViolation
 		cfg.FloatHavoc = h.FloatHavoc
 		if h.MaxSteps > 0 {
 			cfg.MaxSteps = h.MaxSteps
@@ -364,6 +372,15 @@ func CmdCheck(args []string) int {
 			rep.Cuts += r.Cuts
 			for _, o := range r.Oblig {
 				isPanic := strings.HasPrefix(o.Kind, "panic:")
+				if len(chk.OnlyKinds) > 0 {
+					mine := false
+					for _, k := range chk.OnlyKinds {
+						mine = mine || o.Kind == k
+					}
+					if !mine {
+						continue // belongs to another property (C08: panics)
+					}
+				}
 				if len(chk.MsgPrefixes) > 0 && strings.HasPrefix(o.Kind, "assert") {
 					mine := false
 					for _, p := range chk.MsgPrefixes {
@@ -411,7 +428,13 @@ func CmdCheck(args []string) int {
 					rep.StopMsgs = append(rep.StopMsgs, m)
 				}
 			}
-			if r.Model != nil {
+			if r.Stop.kind == StopUnwind && h.StepLimitIsViolation {
+				if r.Model != nil && seenViol["nonterm"] < 3 {
+					seenViol["nonterm"]++
+					rep.Violated++
+					viols = append(viols, violation{h, Obligation{Kind: "nontermination", Msg: "C09 decoding a bounded input finishes (step budget of the executor exhausted: " + r.Stop.msg + ")", Pos: r.Stop.msg, Result: "VIOLATED", Model: r.Model}, "nonterm"})
+				}
+			} else if r.Model != nil {
 				samples = append(samples, sample{h, *r})
 			}
 		}
@@ -479,7 +502,7 @@ func CmdCheck(args []string) int {
 	var violLines []string
 	var knownLines []string
 	for i, v := range viols {
-		if v.ob.Kind == "assert-writelog" {
+		if v.ob.Kind == "assert-writelog" || v.ob.Kind == "alloc-bound" {
 			// An assertion over the engine's write log (C10/C18 write sets) has no
 			// native observation: the witness is the store instruction and the
 			// path; the replay re-runs the executor on that path against /repo.
@@ -488,7 +511,7 @@ func CmdCheck(args []string) int {
 			for k, pv := range v.h.Params[tier] {
 				params[k] = int(pv)
 			}
-			rf := ReplayFile{Property: prop, Pkg: v.h.Pkg, Harness: v.h.Fn, Kind: v.ob.Kind, Msg: v.ob.Msg, Pos: v.ob.Pos, Inputs: v.ob.Model, Params: params, Choices: v.ob.Choices, Events: v.ob.Events,
+			rf := ReplayFile{Property: prop, Pkg: v.h.Pkg, Harness: v.h.Fn, Kind: v.ob.Kind, Msg: v.ob.Msg, Pos: v.ob.Pos, Inputs: v.ob.Model, Params: params, Choices: v.ob.Choices, Events: v.ob.Events, AllocLimit: v.h.AllocLimit, AllocCut: v.h.AllocCut,
 				Howto: "/verif/bin/gosym replay <this file>  (re-executes the harness symbolically on /repo's current tree with the recorded choices and reports the write event if it still occurs)"}
 			b, _ := json.MarshalIndent(rf, "", " ")
 			sum := sha1.Sum(b)
@@ -537,6 +560,9 @@ func CmdCheck(args []string) int {
 				repro := r.Status == "assert-failed" || r.Status == "panic"
 				if isPanic && r.Status != "panic" {
 					repro = false
+				}
+				if v.ob.Kind == "nontermination" {
+					repro = r.Status == "timeout"
 				}
 				if !repro {
 					m := fmt.Sprintf("%s: %s %q at %s: solver model did not reproduce natively (native status %s %s)", v.h.Fn, v.ob.Kind, v.ob.Msg, v.ob.Pos, r.Status, r.Msg)
@@ -793,7 +819,7 @@ func CmdReplay(args []string) int {
 	}
 	os.Setenv("PATH", "/opt/veriftools/go1.26.8/bin:"+os.Getenv("PATH"))
 	hdir := filepath.Join(VerifDir, "harness")
-	if rf.Kind == "assert-writelog" {
+	if rf.Kind == "assert-writelog" || rf.Kind == "alloc-bound" {
 		return replayWriteLog(rf, hdir, args[0])
 	}
 	// package name: read from any harness file
@@ -899,6 +925,15 @@ func replayWriteLog(rf ReplayFile, hdir, file string) int {
 	for k, v := range rf.Choices {
 		cfg.Params["fix."+k] = v
 	}
+	if rf.Kind == "alloc-bound" {
+		// the solver's input bytes are fixed; the executor recomputes the
+		// allocation size from /repo's current code
+		for k, v := range rf.Inputs {
+			cfg.Params["val."+k] = int64(v)
+		}
+		cfg.AllocLimit = rf.AllocLimit
+		cfg.AllocCut = rf.AllocCut
+	}
 	cfg.MaxSteps = 900_000_000
 	cfg.Deadline = time.Now().Add(10 * time.Minute)
 	run := NewRun(prog, f, cfg)
@@ -906,7 +941,7 @@ func replayWriteLog(rf ReplayFile, hdir, file string) int {
 	hit := false
 	run.Hooks.OnPath = func(r *PathResult) {
 		for _, o := range r.Oblig {
-			if o.Kind == "assert-writelog" && o.Msg == rf.Msg && o.Result == "VIOLATED" {
+			if o.Kind == rf.Kind && o.Msg == rf.Msg && o.Result == "VIOLATED" {
 				hit = true
 				fmt.Printf("write log on /repo's current tree, choices %v: %v\n", o.Choices, o.Events)
 			}
